@@ -1,5 +1,6 @@
 import Tbfmm.Spec.Fmm
 import Tbfmm.Model.Coord
+import Tbfmm.Model.Layout
 /-!
 Line-protocol driver for the executable model (see DESIGN.md §4.1).  Reads commands on stdin, writes
 canonical text on stdout; the C++ harness reads the same commands and writes the same format.
@@ -30,6 +31,9 @@ structure DState where
   tree : Tree := default
   st : State := {}
   skip : Bool := false     -- after `build auto=1` (block size chosen by the library): nothing to model
+  ldefs : List BlockDef := []
+  lns : List Nat := []
+  lalloc : Nat := 0
   f : FState := {}
 
 def natsOf (ts : List String) : List Nat := ts.map String.toNat!
@@ -139,6 +143,27 @@ def coordOfBits (real64 src64 : Bool) (H : Nat) (centerB widthB posB : Nat) : Na
 def FState.leafIdxOf (f : FState) (D H : Nat) (src64 : Bool) (bits : List Nat) : Nat :=
   encode D (H - 1) ((List.range D).map fun d => coordOfBits f.real64 src64 H (f.center.getD d 0) (f.width.getD d 0) (bits.getD d 0))
 
+def parseBlockDef (t : String) : BlockDef :=
+  match t.splitOn ":" with
+  | [k, s, r] =>
+    let kind := if k == "S" then BlockKind.scalar else if k == "V" then BlockKind.vector
+                else if k == "R" then BlockKind.multiR r.toNat! else BlockKind.multiV r.toNat!
+    { kind := kind, size := s.toNat! }
+  | _ => default
+
+def layoutSamples (b : BlockDef) (n : Nat) : List (Nat × Nat) :=
+  match b.kind with
+  | .scalar => [(0, 0)]
+  | .vector => if n == 0 then [] else [0, n/2, n-1].map fun i => (i, 0)
+  | .multiR rows | .multiV rows =>
+    if n == 0 then [] else [0, n/2, n-1].flatMap fun i => [0, rows/2, rows-1].map fun r => (i, r)
+
+def layoutLines (tag : String) (defs : List BlockDef) (ns : List Nat) (alloc : Nat) : List String :=
+  let offs := blockOffsets defs ns 0
+  let hdr := s!"{tag} alloc={alloc} toff=" ++ ",".intercalate (offs.map toString) ++ " tcnt=" ++ ",".intercalate (ns.map toString)
+  hdr :: ((defs.zip (ns.zip offs)).zipIdx.flatMap fun ((b, n, off), k) =>
+    (layoutSamples b n).map fun (i, r) => s!"A {k} {i} {r} {itemAddr b off n i r}")
+
 def kv (ts : List String) (key : String) (dflt : Nat) : Nat :=
   match ts.find? (fun t => t.startsWith (key ++ "=")) with
   | some t => ((t.drop (key.length + 1)).toString).toNat!
@@ -157,6 +182,18 @@ def step (d : DState) (line : String) : DState × List String :=
     let idx := (List.range n).map fun i => encode d.D (d.H - 1) ((cs.drop (i * d.D)).take d.D)
     ({ d with leafIdx := idx }, [])
   | "mark" :: x => (d, ["M " ++ " ".intercalate x])
+  | "layout" :: _id :: rest =>
+    let defs := (rest.takeWhile (· != "|")).map parseBlockDef
+    let ns := natsOf ((rest.dropWhile (· != "|")).drop 1)
+    let alloc := newAllocated 0 false defs ns
+    ({ d with ldefs := defs, lns := ns, lalloc := alloc }, layoutLines "LY" defs ns alloc)
+  | "reuse" :: rest =>
+    let ns := natsOf rest
+    let alloc := newAllocated d.lalloc true d.ldefs ns
+    ({ d with lns := ns, lalloc := alloc }, layoutLines "LY" d.ldefs ns alloc)
+  | ["bytecopy"] => (d, [])
+  | ["copy"] => (d, layoutLines "CPV" d.ldefs d.lns d.lalloc)
+  | ["move"] => (d, layoutLines "MVV" d.ldefs d.lns d.lalloc)
   | "ftree" :: ts =>
     let D := kv ts "D" 3; let H := kv ts "H" 3
     let vals := (ts.filter fun t => !t.contains '=').map ofHex
